@@ -829,11 +829,16 @@ def _check_subs(run, repo, world):
     run.ob("R-SUBS", HID + "._callback.register", okreg,
            "register must add exactly one entry keyed by a fresh handle",
            where(mod, reg))
-    ub = [unparse(s_) for s_ in nodoc(unr)]
+    # unregister: removes exactly the entry keyed by this handle from the
+    # registry of the _callback object the handle was created with
+    unr = astq.propagate(unr)      # `reg = self._callback._callbacks`
+    urem = _removals(unr, "_callbacks")
+    utouch = _touches(unr, "_callbacks")
     run.ob("R-SUBS", HID + "._callback._callback_handle.unregister",
-           ub in (["del self._callback._callbacks[self]"],
-                  ["self._callback._callbacks.pop(self)"]),
-           "unregister must remove exactly its own entry", where(mod, unr))
+           len(urem) == 1 and len(utouch) == 1 and urem[0][1] == "self" and
+           astq.canon(unr, urem[0][0]) == "self._callback._callbacks",
+           "unregister must remove exactly its own entry (removals found: "
+           "%s)" % [(unparse(a), k) for a, k in urem], where(mod, unr))
     loops = [n for n in ast.walk(inv) if isinstance(n, ast.For)]
     okinv = len(loops) == 1 and astq.canon(inv, loops[0].iter) in (
         "self._callbacks.values()", "list(self._callbacks.values())",
@@ -921,25 +926,116 @@ def _check_subs(run, repo, world):
     add = dq.methods["add_handler"][1]
     dele = dq.methods["del_handler"][1]
     dist = dq.methods["distribute"][1]
-    run.ob("R-SUBS", SER + ".DistributorQueue.add_handler",
-           "self._handlers[hash(handler)] = handler" in ast.unparse(add),
-           "add_handler must add exactly the given child", where(smod, add))
+    from .. import paths
+    hp = add.args.args[1].arg
+
+    def keytext(fn_, e, param):
+        """Key expression with the handler parameter written H."""
+        t = astq.resolve(fn_, e, calls=True)
+
+        class R(ast.NodeTransformer):
+            def visit_Name(self, n):
+                return ast.copy_location(ast.Name("H", n.ctx), n) \
+                    if n.id == param else n
+        return unparse(R().visit(t))
+    # add_handler: on every path that returns, exactly one entry
+    # self._handlers[k(handler)] = handler was stored; nothing else touches
+    # the registry
+    stores_a = [(t, n.value) for n in ast.walk(add) if isinstance(
+        n, ast.Assign) for t in n.targets if isinstance(
+            t, ast.Subscript) and unparse(t.value) == "self._handlers"]
+    other_a = [n for n in ast.walk(add) if isinstance(n, ast.Attribute) and
+               n.attr == "_handlers" and not any(n is t.value
+                                                 for t, _ in stores_a)]
+    akey = None
+    okadd = len(stores_a) == 1 and not other_a and unparse(
+        stores_a[0][1]) == hp
+    if okadd:
+        akey = keytext(add, stores_a[0][0].slice, hp)
+        okadd = akey in ("hash(H)", "id(H)", "H")
+        for p_ in paths.summaries(add):
+            nst = sum(1 for (tg, v) in p_.effects
+                      if tg.startswith("self._handlers["))
+            if p_.kind != "raise" and nst != 1:
+                okadd = False
+    run.ob("R-SUBS", SER + ".DistributorQueue.add_handler", okadd,
+           "add_handler must add exactly the given child, under a key "
+           "computed from it, on every path that returns (key %s)" % akey,
+           where(smod, add))
+    dp = dele.args.args[1].arg
+    dele = astq.propagate(dele)    # `key = hash(handler)`
+    drem = _removals(dele, "_handlers")
+    dtouch = _touches(dele, "_handlers")
+    dkeys = {keytext(dele, ast.parse(k, mode="eval").body, dp)
+             for _, k in drem}
+    # (a membership test of the same key may guard the removal)
+    tests = [n for n in dtouch if not any(n is a for a, _ in drem)]
     run.ob("R-SUBS", SER + ".DistributorQueue.del_handler",
-           [unparse(s) for s in dele.body] ==
-           ["self._handlers.pop(hash(handler), None)"],
-           "del_handler must remove exactly the given child",
-           where(smod, dele))
+           len(drem) == 1 and dkeys == {akey} and len(tests) <= 1 and
+           astq.canon(dele, drem[0][0]) == "self._handlers",
+           "del_handler must remove exactly the entry add_handler stored "
+           "for the given child (removes %s, add_handler stores under %s)"
+           % (sorted(dkeys), akey), where(smod, dele))
+    ip = dist.args.args[1].arg
     loops = [n for n in ast.walk(dist) if isinstance(n, ast.For)]
-    run.ob("R-SUBS", SER + ".DistributorQueue.distribute",
-           len(loops) == 1 and unparse(loops[0].iter) ==
-           "self._handlers.values()" and isinstance(
-               loops[0].target, ast.Name) and any(
-               unparse(b_) == "%s.distribute(%s)" % (
-                   loops[0].target.id, dist.args.args[1].arg)
-               for b_ in loops[0].body) and "self.put_nowait(%s)" % (
-                   dist.args.args[1].arg) in ast.unparse(dist),
-           "distribute must hand the item to every child queue",
-           where(smod, dist))
+    okd = len(loops) == 1
+    if okd:
+        lp = loops[0]
+        it = astq.canon(dist, lp.iter)
+        var = None
+        if it in ("self._handlers.values()",
+                  "list(self._handlers.values())",
+                  "tuple(self._handlers.values())") and isinstance(
+                      lp.target, ast.Name):
+            var = lp.target.id
+        elif it in ("self._handlers.items()",
+                    "list(self._handlers.items())") and isinstance(
+                        lp.target, ast.Tuple) and len(
+                            lp.target.elts) == 2 and isinstance(
+                                lp.target.elts[1], ast.Name):
+            var = lp.target.elts[1].id
+        # the hand-over is a first-level statement of the loop body: nothing
+        # in the loop can skip a child
+        okd = var is not None and not lp.orelse and any(
+            isinstance(b_, ast.Expr) and unparse(b_.value) ==
+            "%s.distribute(%s)" % (var, ip) for b_ in lp.body) and not any(
+                isinstance(n, (ast.Break, ast.Continue, ast.Return))
+                for n in ast.walk(lp))
+        # a child queue keeps the item for its own consumer
+        puts = [n for n in ast.walk(dist) if isinstance(n, ast.Call) and
+                unparse(n.func) == "self.put_nowait" and len(
+                    n.args) == 1 and unparse(n.args[0]) == ip]
+        okd = okd and len(puts) == 1
+    run.ob("R-SUBS", SER + ".DistributorQueue.distribute", okd,
+           "distribute must hand the item to every child queue (and a "
+           "child must keep it for its own consumer)", where(smod, dist))
+
+
+def _touches(fn, attr):
+    """Attribute nodes `.attr` of fn other than the right-hand side of a
+    plain local alias (`reg = self._callbacks`, already propagated)."""
+    alias_rhs = {id(n.value) for n in ast.walk(fn) if isinstance(
+        n, ast.Assign) and all(isinstance(t, ast.Name) for t in n.targets)}
+    return [n for n in ast.walk(fn) if isinstance(n, ast.Attribute) and
+            n.attr == attr and id(n) not in alias_rhs]
+
+
+def _removals(fn, attr):
+    """[(container expr, key text)] for `del X.<attr>[k]` and
+    `X.<attr>.pop(k[, default])` in fn."""
+    out = []
+    for n in ast.walk(fn):
+        if isinstance(n, ast.Delete):
+            for t in n.targets:
+                if isinstance(t, ast.Subscript) and isinstance(
+                        t.value, ast.Attribute) and t.value.attr == attr:
+                    out.append((t.value, unparse(t.slice)))
+        elif isinstance(n, ast.Call) and isinstance(
+                n.func, ast.Attribute) and n.func.attr == "pop" and \
+                isinstance(n.func.value, ast.Attribute) and \
+                n.func.value.attr == attr and 1 <= len(n.args) <= 2:
+            out.append((n.func.value, unparse(n.args[0])))
+    return out
 
 
 def _check_feed(run, repo, world):
